@@ -1,7 +1,27 @@
 #!/bin/bash
 # tools/trymut.sh <patch.diff> <Cxx> [Cyy ...]  : apply a seeded change to /repo, run the quick checks, undo it.
+# TRYMUT_SCRATCH=1: do the same in a scratch worktree of /repo HEAD (VERIF_REPO override of ./check), leaving /repo alone -
+# for use while another run (a sweep) is building from /repo.
 set -u
 patch="$1"; shift
+if [ -n "${TRYMUT_SCRATCH:-}" ]; then
+  wt=/tmp/wt/trymut-$$
+  git -C /repo worktree add --detach "$wt" HEAD >/dev/null 2>&1 || { echo "cannot create worktree"; exit 2; }
+  trap 'git -C /repo worktree remove --force "$wt" >/dev/null 2>&1' EXIT
+  cd "$wt" || exit 2
+  if ! git apply "$patch" 2>/dev/null; then
+    git apply --3way "$patch" >/dev/null 2>&1 || { echo "PATCH DOES NOT APPLY: $patch"; exit 3; }
+  fi
+  rm -rf /verif/.build/evidence.keep$$; cp -r /verif/evidence /verif/.build/evidence.keep$$ 2>/dev/null
+  for id in "$@"; do
+    out=$(cd /verif && VERIF_REPO="$wt" ./check "$id" quick 2>&1); rc=$?
+    echo "== $id exit=$rc: $(echo "$out" | grep -c '^VIOLATION') violation line(s)"
+    echo "$out" | grep -A1 '^VIOLATION' | grep signature | head -4
+    echo "$out" | grep -E '^INCONCLUSIVE' | head -3
+  done
+  [ -d /verif/.build/evidence.keep$$ ] && { rm -rf /verif/evidence; mv /verif/.build/evidence.keep$$ /verif/evidence; }
+  exit 0
+fi
 cd /repo || exit 2
 if [ -n "$(git status --porcelain)" ]; then echo "/repo is dirty, refusing"; exit 2; fi
 if ! git apply "$patch" 2>/dev/null; then
